@@ -599,6 +599,18 @@ if z3 is not None:
         return ax
 
 
+def item(t, i):
+    """i-th item of a fixed-length tuple (symbolic TupV or concrete)."""
+    if isinstance(t, TupV):
+        v = t.items[i]
+        if isinstance(v, Opt) and v.definite():
+            return _i(v.v)
+        if isinstance(v, BoolV):
+            return v.t
+        return v
+    return t[i]
+
+
 def slen(t):
     if isinstance(t, SeqV):
         return f_len(t.t)
